@@ -191,7 +191,8 @@ func genManifest(r *rng.R, shape *[]string) *manifest.Manifest {
 	case 1:
 		m.Extra = json.RawMessage(fmt.Sprintf(`{"b":%d,"a":"%s","z":[1,2.5,{"q":null}],"n":12345678901234567890}`, r.Intn(1000), ident(r, 6)))
 	default:
-		m.Extra = json.RawMessage(fmt.Sprintf(`"%s"`, ident(r, 10)))
+		// characters the standard encoder spells as escapes when it writes the text out again
+		m.Extra = json.RawMessage(fmt.Sprintf(`"%s%s"`, ident(r, 10), []string{"", "<", "&>", "\u2028"}[r.Intn(4)]))
 	}
 	return m
 }
